@@ -125,6 +125,10 @@ class SNd(SV):
         self.scalar = scalar
         self.size = size
         self.label = label
+        # the dtype this array *object* interprets the buffer with (a view keeps its own dtype
+        # when another view of the same memory is re-typed in place)
+        self.vkind = buf.kind
+        self.vsize = buf.itemsize
 
     def __repr__(self):
         return "<ndarray %s buf%d>" % (self.label, self.buf.bid)
@@ -193,6 +197,21 @@ def arr_buf(a):
 
 def arr_elem(a):
     return arr_buf(a).elem
+
+
+def read_elem(it, a):
+    """the element as *read through array object a*: if a is a view whose dtype no longer is
+    the dtype the buffer's contents were written with (another view was re-typed in place),
+    the bytes are reinterpreted: an unrelated value"""
+    b = arr_buf(a)
+    if isinstance(a, SNd) and (a.vkind is not b.kind or a.vsize is not b.itemsize):
+        same = z3.And(to_z3(a.vkind) == to_z3(b.kind), to_z3(a.vsize) == to_z3(b.itemsize))
+        same = z3.simplify(same)
+        if z3.is_true(same):
+            return b.elem
+        g = z3.Real(it.ctx.fresh_name("reinterpreted_bytes"))
+        return z3.If(same, to_real(b.elem), g)
+    return b.elem
 
 
 def arr_kind(a):
@@ -454,6 +473,8 @@ def array_setattr(it, a, name, value):
         if not it.branch(same):
             b.elem = z3.Real(it.ctx.fresh_name("reinterpreted_bytes"))
         b.kind, b.itemsize = d.kind, d.itemsize
+        if isinstance(a, SNd):
+            a.vkind, a.vsize = d.kind, d.itemsize
         b.writes += 1
         it.ctx.events.append(("dtype-set", a))
         return True
@@ -701,6 +722,14 @@ def _np_count_nonzero(it, x, *a, **kw):
     return t
 
 
+@np_fn("numpy.shares_memory", "np.shares_memory(a, b): true iff the two arrays are backed by the same buffer "
+       "(exact for whole-buffer views, which is all the model has)")
+def _np_shares_memory(it, x, y, *a, **kw):
+    if is_array(x) and is_array(y):
+        return arr_buf(x) is arr_buf(y)
+    return False
+
+
 @np_fn("numpy.copyto", "np.copyto(dst, src): dst's buffer receives src's values (cast to "
        "dst's dtype); nothing else changes")
 def _np_copyto(it, dst, src, *a, **kw):
@@ -755,6 +784,17 @@ def homogeneity_fact(name, k, x, y):
     return z3.Implies(k > 0, f(k * x, k * y) == k * f(x, y))
 
 
+def kind_rank(k):
+    k = to_z3(k)
+    return z3.If(k == sv("b"), 0, z3.If(z3.Or(k == sv("u"), k == sv("i")), 1, z3.If(k == sv("f"), 2, 3)))
+
+
+def cannot_cast_same_kind(result_kind, out_kind):
+    """NumPy's default casting="same_kind" for out=: a result may go into a buffer of the same or a
+    higher kind (bool < integer < float < complex), never into a lower one (UFuncTypeError)"""
+    return kind_rank(result_kind) > kind_rank(out_kind)
+
+
 def _ufunc2(name, op=None):
     fn = BINARY_UFUNCS[name]
 
@@ -767,8 +807,8 @@ def _ufunc2(name, op=None):
                 raise Unsupported("np.%s keyword %s" % (name, k))
         if kw.get("where") is not None and kw.get("where") is not True:
             raise Unsupported("np.%s with where=" % name)
-        ex = arr_elem(x) if is_array(x) else scalar_term(it, x)
-        ey = arr_elem(y) if is_array(y) else scalar_term(it, y)
+        ex = read_elem(it, x) if is_array(x) else scalar_term(it, x)
+        ey = read_elem(it, y) if is_array(y) else scalar_term(it, y)
         if ex is None or ey is None:
             raise Unsupported("np.%s operands" % name)
         e = fn(to_real(ex), to_real(ey))
@@ -776,13 +816,18 @@ def _ufunc2(name, op=None):
         floaty_scalar = (not is_array(x) and is_floaty(x)) or (not is_array(y) and is_floaty(y))
         if out is not None:
             b = arr_buf(out)
-            needs_float = z3.BoolVal(bool(floaty_scalar or name in FLOAT_RESULT))
-            for o in (x, y):
-                if is_array(o):
-                    needs_float = z3.Or(needs_float, z3.Not(is_int_kind(arr_kind(o))))
-            # NumPy refuses (UFuncTypeError, a TypeError) to cast a float result into an
-            # integer buffer under same_kind casting
-            if name not in BOOL_RESULT and it.branch(z3.And(is_int_kind(b.kind), needs_float)):
+            if name in BOOL_RESULT:
+                rk = sv("b")
+            else:
+                if is_array(x) and is_array(y):
+                    rk, _rn = promote_arrays(arr_kind(x), arr_itemsize(x), arr_kind(y), arr_itemsize(y))
+                else:
+                    rk = to_z3(arr_kind(like))
+                    if floaty_scalar:
+                        rk, _rn = promote_with_pyfloat(rk, arr_itemsize(like))
+                if name in FLOAT_RESULT:
+                    rk = z3.If(to_z3(rk) == sv("c"), sv("c"), sv("f"))
+            if it.branch(cannot_cast_same_kind(rk, b.kind)):
                 it.raise_("TypeError")
             b.elem = e
             b.writes += 1
@@ -831,15 +876,60 @@ for _n in BINARY_UFUNCS:
     UD.EXTERNAL_CALLS["numpy." + _n + ".__call__"] = _f
 
 
-@np_fn("numpy.sqrt", "element-wise square root: y >= 0 and y*y == x for x >= 0")
-def _np_sqrt(it, x, out=None, **kw):
-    if is_unyt_array(x) or is_unyt_array(out):
-        raise Unsupported("np.sqrt on unyt arrays goes through __array_ufunc__")
-    e = ufn("sqrt", 1)(to_real(arr_elem(x)))
-    if out is not None:
-        arr_buf(out).elem = e
-        return out
-    return new_array(it, e, arr_kind(x), arr_itemsize(x), x, "sqrt")
+UNARY_UFUNCS = {
+    "negative": lambda x: -x, "positive": lambda x: x, "conj": lambda x: x, "conjugate": lambda x: x,
+    "absolute": _zabs, "fabs": _zabs, "square": lambda x: x * x, "reciprocal": lambda x: 1 / x,
+    "sqrt": lambda x: ufn("sqrt", 1)(x), "cbrt": lambda x: ufn("cbrt", 1)(x),
+    "sin": lambda x: ufn("sin", 1)(x), "cos": lambda x: ufn("cos", 1)(x), "tan": lambda x: ufn("tan", 1)(x),
+    "exp": lambda x: ufn("exp", 1)(x), "log": lambda x: ufn("log", 1)(x),
+    "floor": lambda x: ufn("floor", 1)(x), "ceil": lambda x: ufn("ceil", 1)(x),
+}
+assumed("numpy-roots", "np.sqrt / np.cbrt (uninterpreted): sqrt(x) >= 0 and sqrt(x)**2 == x for x >= 0; "
+        "cbrt(x)**3 == x; rpow(s, 1/2)**2 == s and rpow(s, 1/3)**3 == s for s > 0 (instantiated where a "
+        "contract needs it)")
+
+
+def _ufunc1(name):
+    fn = UNARY_UFUNCS[name]
+
+    def f(it, x, out=None, **kw):
+        x = const_float(x)
+        if is_unyt_array(x) or is_unyt_array(out):
+            raise Unsupported("np.%s on unyt arrays goes through __array_ufunc__ (contract)" % name)
+        for k in kw:
+            if k not in ("where", "casting", "order", "dtype", "subok"):
+                raise Unsupported("np.%s keyword %s" % (name, k))
+        ex = read_elem(it, x) if is_array(x) else scalar_term(it, x)
+        if ex is None:
+            raise Unsupported("np.%s operand" % name)
+        e = fn(to_real(ex))
+        floaty = name in ("sqrt", "cbrt", "reciprocal", "sin", "cos", "tan", "exp", "log")
+        if out is not None:
+            b = arr_buf(out)
+            if is_array(x):
+                rk = to_z3(arr_kind(x))
+                if floaty:
+                    rk = z3.If(rk == sv("c"), sv("c"), sv("f"))
+                if it.branch(cannot_cast_same_kind(rk, b.kind)):
+                    it.raise_("TypeError")
+            b.elem = e
+            b.writes += 1
+            it.ctx.events.append(("buf-write", b.bid))
+            return out
+        if not is_array(x):
+            return e
+        k, n = arr_kind(x), arr_itemsize(x)
+        if floaty:
+            k = z3.If(to_z3(k) == sv("c"), sv("c"), sv("f"))
+            n = z3.If(is_int_kind(arr_kind(x)), z3.IntVal(8), to_z3(n))
+        return new_array(it, e, k, n, x, name)
+    return f
+
+
+for _n in UNARY_UFUNCS:
+    _f = _ufunc1(_n)
+    np_fn("numpy." + _n, "element-wise %s; out= writes through the buffer" % _n)(_f)
+    UD.EXTERNAL_CALLS["numpy." + _n + ".__call__"] = _f
 
 
 UD.EXTERNAL_VALUES["numpy.ndarray"] = lambda it: ExternalRef("numpy.ndarray")
